@@ -81,6 +81,11 @@ pub fn server_config(name: &str) -> Arc<ServerConfig> {
     } else {
         builder.with_single_cert(certs, key).expect("server config")
     };
+    // every identity in the simulated world shares one session store (a farm behind one load balancer does):
+    // a client that offers one server's session to another finds it accepted
+    static SESSIONS: OnceLock<Arc<rustls::server::ServerSessionMemoryCache>> = OnceLock::new();
+    let mut cfg = cfg;
+    cfg.session_storage = SESSIONS.get_or_init(|| rustls::server::ServerSessionMemoryCache::new(4096)).clone();
     let cfg = Arc::new(cfg);
     c.insert(name.to_string(), cfg.clone());
     cfg
